@@ -35,6 +35,7 @@ CONSTANTS NK,           \* keys 1..NK (key order = numeric order; regions are ke
           CheckTs,      \* currentTs values resolver passes use (start+TTL = 30)
           Concurrent,   \* TRUE: resolver passes interleave with the client's RPCs
           Dev,          \* enabled deviations
+          Orders,       \* "all": every mutation order; "two": ascending and descending key order only (quick tier)
           PlanMax,      \* 0: a fault may hit any RPC; n > 0 (behaviour generation): the indices of the faulted RPCs
                         \*    (counted over both actors, 1..n) are chosen in the initial state
           MaxHist       \* length of the recorded step history (0 in exhaustive runs)
@@ -64,7 +65,8 @@ view == <<regOf, order, primary, lk, wr, stale, cpc, cdone, ctries, attempts, rp
 \* ------------------------------------------------------------------ layout
 \* regions are contiguous key ranges, numbered in key order
 RegMaps == {f \in [Keys -> Regions] : f[1] = 1 /\ \A k \in Keys \ {1} : f[k] \in {f[k-1], f[k-1] + 1}}
-Perms   == {s \in [Keys -> Keys] : \A i, j \in Keys : i # j => s[i] # s[j]}
+Perms   == IF Orders = "all" THEN {s \in [Keys -> Keys] : \A i, j \in Keys : i # j => s[i] # s[j]}
+           ELSE {[i \in Keys |-> i], [i \in Keys |-> NK + 1 - i]}
 Used    == {regOf[k] : k \in Keys}
 PR      == regOf[primary]
 Others  == Used \ {PR}
@@ -124,11 +126,12 @@ Check(s, cur) ==
        ELSE [s |-> RollbackKey(s, k), r |-> "rollback"]
 
 \* ------------------------------------------------------------------ RPC delivery
-Faults == {"none", "before", "after", "nl"}
+Faults == {"none", "before", "after", "nl", "nlx"}
 \* what happens to a request actor a sends to region r under injected fault f
 Route(a, r, f) ==
     IF f = "before" THEN "lost"             \* RPC error, nothing applied
     ELSE IF f = "nl" THEN "notleader"       \* NotLeader without a hint: the client tries the same store again
+    ELSE IF f = "nlx" THEN "exhausted"      \* ... and again NotLeader, until the client's retries are used up
     ELSE IF stale[a][r] THEN "redirect"     \* NotLeader naming the leader: handleRegionError updates the cache
     ELSE IF f = "after" THEN "applied-lost" \* applied, then RPC error
     ELSE "applied"
@@ -191,7 +194,7 @@ StartPass(cur) ==
     /\ rpc' = "check" /\ rcur' = cur /\ rdec' = "none" /\ rdone' = {} /\ rtries' = 0
     /\ passes' = IF Finished THEN passes ELSE passes + 1
     /\ rfresh' = Finished /\ rclean' = FALSE
-    /\ Log(Step("pass", "", 0, "none", cur))
+    /\ Log(Step("pass", IF Finished THEN "after" ELSE "during", 0, "none", cur))   \* after / during the client's Mutate call
     /\ UNCHANGED <<regOf, order, primary, lk, wr, stale, cpc, cdone, ctries, attempts, nf, nlead, nrpc, plan, pcApplied, everOk>>
 
 RTargets ==
@@ -278,6 +281,11 @@ Sched == [reg |-> regOf, order |-> order, primary |-> primary, steps |-> hist]
 \* a behaviour is complete when it is resolved and the application will not call Mutate again
 GenDone  == Resolved /\ (cpc = "ok" \/ attempts = MaxAttempts \/ Len(hist) >= MaxHist)
 GenStop  == ~GenDone          \* ACTION_CONSTRAINT: nothing happens after a complete behaviour
+\* the order in which the client visits regions (Go map iteration) cannot be scheduled: lowest region first
+MinR(S)  == CHOOSE r \in S : \A q \in S : r <= q
+GenCanon == LET n == Len(hist')
+            IN (n > Len(hist) /\ hist'[n].a = "c" => hist'[n].r = MinR({x[2] : x \in CTargets}))
+               /\ (n > Len(hist) /\ hist'[n].a = "r" => hist'[n].r = MinR({x[2] : x \in RTargets}))
 EmitHist == (GenDone \/ Len(hist) >= MaxHist) => PrintT(<<"SCHED", ToJson(Sched)>>)
 \* counterexample printing for the as-is configurations
 CexPrimaryFirst == PrimaryFirst \/ (PrintT(<<"CEX", ToJson(Sched)>>) /\ FALSE)
